@@ -472,3 +472,114 @@ func RunIsolation(s *Store, col *ev.Collector, label string, names []string, dl 
 }
 
 func skipMetaKey(k string) bool { return len(k) > 0 && k[0] == 10 }
+
+// RunBigClear: the clear commands switch from item-by-item deletion to one range deletion above
+// RangeDeleteNum (5000) elements; that path gets its own bounds. One collection with 5001 elements
+// per type is cleared by every clearing command while neighbours with adversarial names exist in
+// the same and in another table; nothing of the neighbours may change and (policies other than
+// wait_compact) nothing of the cleared collection may stay.
+func RunBigClear(s *Store, col *ev.Collector, label string) (ops int) {
+	ts := int64(1600000000) * 1e9
+	const big = "t:a"
+	neighbours := []string{"t:b", "t:ab", "t:a:", "t:zz", "t:0", "t:", "t2:a", "t:a\x00"}
+	const n = 5001
+	type clearOp struct {
+		name string
+		cmds [][]string
+	}
+	types := map[string][]clearOp{
+		"hash": {{"hclear", [][]string{{"hclear", big}}}},
+		"set":  {{"sclear", [][]string{{"sclear", big}}}},
+		"list": {{"lclear", [][]string{{"lclear", big}}}},
+		"zset": {{"zclear", [][]string{{"zclear", big}}}, {"zremrangebyrank", [][]string{{"zremrangebyrank", big, "0", "-1"}}}, {"zremrangebylex", [][]string{{"zremrangebylex", big, "-", "+"}}},
+			{"zremrangebyscore", [][]string{{"zremrangebyscore", big, "-inf", "+inf"}}}},
+	}
+	fill := func(typ, name string, count int) {
+		for from := 0; from < count; from += 2000 {
+			to := from + 2000
+			if to > count {
+				to = count
+			}
+			args := []string{map[string]string{"hash": "hmset", "set": "sadd", "list": "rpush", "zset": "zadd"}[typ], name}
+			for i := from; i < to; i++ {
+				m := fmt.Sprintf("m%05d", i)
+				switch typ {
+				case "hash":
+					args = append(args, m, "v")
+				case "zset":
+					args = append(args, "1", m)
+				default:
+					args = append(args, m)
+				}
+			}
+			if r := s.Write(ts, args...); r.IsErr() {
+				panic(fmt.Sprintf("fill %s %s: %v", typ, name, r))
+			}
+		}
+	}
+	deepRead := func(typ, name string) string {
+		r := isoRead(s, typ, name)
+		switch typ {
+		case "hash":
+			r += s.Read("hget", name, "m00000").String() + s.Read("hkeys", name).String()
+		case "set":
+			r += s.Read("sismember", name, "m00000").String()
+		case "zset":
+			r += s.Read("zscore", name, "m00000").String() + s.Read("zrangebylex", name, "-", "+").String() + s.Read("zlexcount", name, "-", "+").String() + s.Read("zrank", name, "m00001").String()
+		case "list":
+			r += s.Read("lindex", name, "1").String()
+		}
+		return r
+	}
+	for _, typ := range []string{"hash", "set", "list", "zset"} {
+		s.Load(Dump{})
+		var present []string
+		for _, nb := range neighbours {
+			func() {
+				defer func() { recover() }() // a name the type refuses is simply not a neighbour
+				fill(typ, nb, 3)
+				present = append(present, nb)
+			}()
+		}
+		emptyNeighbours := s.Dump()
+		fill(typ, big, n)
+		base := s.Dump()
+		want := map[string]string{}
+		for _, nb := range present {
+			want[nb] = deepRead(typ, nb)
+		}
+		for _, op := range types[typ] {
+			s.Load(base)
+			var replies []string
+			for _, c := range op.cmds {
+				replies = append(replies, s.Write(ts+1e9, c...).String())
+			}
+			ops++
+			for _, nb := range present {
+				if got := deepRead(typ, nb); got != want[nb] {
+					col.Add(ev.Violation{Property: "C12", Signature: fmt.Sprintf("C12|store|big-clear|%s-changes-neighbour", op.name),
+						What: fmt.Sprintf("%s: %s of %s %q holding %d elements (replies %v) changed %s %q: %s -> %s", label, op.name, typ, big, n, replies, typ, nb, want[nb], got)})
+					break
+				}
+			}
+			if s.Opt.Policy != common.WaitCompact {
+				after := s.Dump()
+				for k := range after {
+					if _, ok := emptyNeighbours[k]; !ok && !skipMetaKey(k) {
+						col.Add(ev.Violation{Property: "C12", Signature: fmt.Sprintf("C12|store|big-clear|%s-leaves-own-key", op.name),
+							What: fmt.Sprintf("%s: %s of %s %q holding %d elements leaves its stored key %q behind", label, op.name, typ, big, n, k)})
+						break
+					}
+				}
+				for k, v := range emptyNeighbours {
+					if nv, ok := after[k]; (!ok || nv != v) && !skipMetaKey(k) {
+						col.Add(ev.Violation{Property: "C12", Signature: fmt.Sprintf("C12|store|big-clear|%s-touches-foreign-key", op.name),
+							What: fmt.Sprintf("%s: %s of %s %q holding %d elements changed the stored key %q of a neighbour", label, op.name, typ, big, n, k)})
+						break
+					}
+				}
+			}
+		}
+	}
+	return ops
+}
